@@ -161,6 +161,13 @@ def main(argv=None):
         return 2
     except Exception as e:  # never let a traceback look like a violation
         tb = traceback.format_exc()
+        if report.findings:
+            # violations established before the analysis gave up stand on their own
+            print(f"note: analysis incomplete ({type(e).__name__}: {e})")
+            try:
+                return report.finish(write=not args.no_write)
+            except Exception:  # noqa: BLE001
+                pass
         print(f"ANALYSIS-ERROR property={prop} internal error: {type(e).__name__}: {e}")
         sys.stderr.write(tb)
         return 2
